@@ -203,7 +203,7 @@ func ruleSubShare(c *Ctx) {
 			}
 		}
 		if !dom {
-			short = ret.Pos()
+			short = posOr(ret.Pos(), fn.Pos())
 		}
 	}
 	c.check(short == token.NoPos && nSucc >= 1 && len(engine) >= 1, "subshare:engine", short,
